@@ -8,6 +8,7 @@ package rules
 
 import (
 	"fmt"
+	"sync"
 	"go/ast"
 	"go/token"
 	"go/types"
@@ -129,11 +130,17 @@ func isExternalReadOnly(full string) bool {
 	return false
 }
 
-var effCache = map[*core.Program]*effEngine{}
+var (
+	effCache = map[*core.Program]*effEngine{}
+	cacheMu  sync.Mutex
+)
 
 func effects(c *Ctx) *effEngine {
-	if e, ok := effCache[c.P]; ok {
-		return e
+	cacheMu.Lock()
+	e0, ok := effCache[c.P]
+	cacheMu.Unlock()
+	if ok {
+		return e0
 	}
 	e := &effEngine{c: c, sum: map[*core.FuncInfo]*effSummary{}}
 	funcs := c.P.SortedFuncs()
@@ -159,7 +166,9 @@ func effects(c *Ctx) *effEngine {
 			break
 		}
 	}
+	cacheMu.Lock()
 	effCache[c.P] = e
+	cacheMu.Unlock()
 	return e
 }
 
